@@ -27,6 +27,8 @@ UNIVERSE = [
     "0", "0.0", "1", "1.0", "1e0", "10e-1", "2", "-1", "-1.0", "-2", "0.5", "5e-1", "-0.5", "1.5", "2.5", "10", "9", "100", "1e2", "99.99", "1e-7",
     "-1e-7", "3.141592653589793", "1e300", "-1e300", "5e-324", "1.7976931348623157e308", "9007199254740991", "-9007199254740991", "123456.789",
     "0.1", "0.2", "0.30000000000000004", "1e21", "1.5e20",
+    # integers at the ends of the 64-bit ranges (each is a double of its own, so every reading of "numeric order" agrees)
+    "9223372036854775808", "-9223372036854775808", "4611686018427387904", "-4611686018427387904", "13835058055282163712",
     "{}", '{"a":1}', '{"a":1.0}', '{"a":2}', '{"b":1}', '{"a":null}', '{"a":1,"b":2}', '{"a":1,"b":3}', '{"a":2,"b":0}', '{"a":[1]}', '{"a":{"b":1}}',
     '{"":0}', '{"é":1}', '{"a":"x"}', '{"a":true}', '{"c":0,"d":0,"e":0}',
     "[]", "[null]", "[false]", "[true]", "[0]", "[1]", "[1.0]", "[1,2]", "[1,2,3]", "[1,3]", "[2]", "[2,1]", '["a"]', '["a","b"]', '["b"]', "[[]]", "[[1]]",
@@ -322,6 +324,13 @@ def run_unit(ctx, unit):
             key = rng.choice((".k%d", ".k%d", ".k%d", '(get . "k%d")', "(default .k%d, .k%d)", '(? true .k%d "x, y")', "(| . .k%d)")).replace("%d", str(k))
             args.append("--sort-by=%s%s" % (key, spell_dir(rng, desc)))
         args += ["--select=.s=s"]
+        # a bounded sort (the rows beyond skip+take may be dropped while sorting) is the same order, cut
+        lim = None
+        if rng.random() < 0.35:
+            lim = (rng.choice((0, 0, 1, 2, 5)), rng.choice((1, 2, 3, 5, 8, 20)))
+            if lim[0]:
+                args += ["--skip", str(lim[0])]
+            args += ["--take", str(lim[1])]
         o = ctx.drv.run(core.Case(args, "\n".join(lines).encode("utf-8")))
         if o.result != "ok":
             fail("sort-run:" + o.result, "sort run failed: %s %s" % (o.errtext, o.panicinfo), {"args": args})
@@ -339,6 +348,9 @@ def run_unit(ctx, unit):
                     return x
             return a["s"] - b["s"]
         want = [r["s"] for r in sorted(sortable, key=functools.cmp_to_key(c))]
+        if lim:
+            want = want[lim[0]:lim[0] + lim[1]]
+            st.count("bounded_sorts")
         if got != want:
             fail("sort-by-order:%dkeys" % len(unit["keys"]), "--sort-by result is not the stable multi-key sort of the sortable rows", {
                 "args": args, "want_serials": want, "got_serials": got,
